@@ -573,6 +573,12 @@ def attribute(I, e, b):
     if attr in ARRAY_METHODS and not b.tag("kind") in ("dict", "list", "self"):
         return Val(data=f.data, shp=f.shp, ctrl=f.ctrl, refs=f.refs, tags={"bound_array_method": attr, "recv": b},
                    term=mk_term("boundmethod", attr, b.term))
+    if b.tag("kind") == "ureg":
+        from .ext_models import UREG_CONSTANTS
+        if attr in UREG_CONSTANTS:
+            return Val(data={attr}, tags={"kind": "pintq", "deg": {attr: 1}, "notnone": True, "physical_constant": attr},
+                       term=("constant", attr), fresh="FRESH", shape=S())
+        return Val(tags={"ureg_attr": attr}, term=("ureg", attr))
     if attr in ("magnitude", "m"):
         return b.copy(term=mk_term("magnitude", b.term))
     if attr in ("units", "dtype", "flags"):
